@@ -777,6 +777,30 @@ impl<'a> Rewriter<'a> {
                 if fl.label.is_some() {
                     return vec![s];
                 }
+                // N11: `for PAT in [e1, .., ek] { B }` (array literal) -> one block per element, in order
+                if let Expr::Array(arr) = strip_paren(&fl.expr) {
+                    struct Brk(bool);
+                    impl<'x> Visit<'x> for Brk {
+                        fn visit_expr_break(&mut self, _: &'x syn::ExprBreak) { self.0 = true; }
+                        fn visit_expr_continue(&mut self, _: &'x syn::ExprContinue) { self.0 = true; }
+                        fn visit_expr_for_loop(&mut self, _: &'x syn::ExprForLoop) {}
+                        fn visit_expr_while(&mut self, _: &'x syn::ExprWhile) {}
+                        fn visit_expr_loop(&mut self, _: &'x syn::ExprLoop) {}
+                        fn visit_expr_closure(&mut self, _: &'x syn::ExprClosure) {}
+                    }
+                    let mut b = Brk(false);
+                    b.visit_block(&fl.body);
+                    if !b.0 {
+                        let pat = &fl.pat;
+                        let body = &fl.body.stmts;
+                        let mut out: Vec<Stmt> = vec![];
+                        for e in arr.elems.iter() {
+                            out.push(Stmt::Expr(parse_quote!({ let #pat = #e; #(#body)* }), None));
+                        }
+                        self.n.rule("N11", fl.span(), &format!("for over array literal unrolled ({} elements)", arr.elems.len()));
+                        return out;
+                    }
+                }
                 // N20: `for _ in a..b` gets a named (unused) counter so that invariants can mention it
                 if let (Pat::Wild(_), Some(Iter { src: Src::Range { .. }, adapters })) = (&*fl.pat, parse_iter(&fl.expr, true)) {
                     if adapters.is_empty() {
